@@ -23,6 +23,8 @@ SRCS = {
     'calls': 'r = f(a, g(b, c), k=h(d))\ns = t.u\n',
     'nonefirst': 'x = [pre, {**v0, k1: v1, k2: v2}, post]\ng = lambda *, a, b=d1, c=d2: a\n',
     'mixed': 'def f(p, q=1):\n    r = [p, q]  # c\n    return r\nz = f(1, 2)\n',
+    'boolops': 'r = (a and b) or c\ns = [x and y, not z]\n',
+    'comps': 'def f(p=[u for u in v]):\n    x = [i for i in [j for j in k] if i]\n    return {m: n for m, n in x}\n',
 }
 ACTIONS = ['none', 'replace_self', 'remove_self', 'replace_parent', 'remove_parent', 'remove_grandparent', 'remove_prev', 'remove_next', 'replace_next', 'insert_before']
 WALKS = [dict(), dict(back=True), dict(all=True), dict(on='both'), dict(on='leave'), dict(recurse=False), dict(scope=True)]
@@ -87,16 +89,19 @@ def _do(action, g):
     return 'n/a'
 
 
-def _mk_walk(key, wi, two):
+STARTS = {'root': lambda r: r, 'stmt0': lambda r: r.body[0], 'value0': lambda r: r.body[0].value if hasattr(r.body[0].a, 'value') else r.body[0]}
+
+
+def _mk_walk(key, wi, two, start='root'):
     src = SRCS[key]
     wkw = WALKS[wi]
     both = wkw.get('on') == 'both'
     leave = wkw.get('on') == 'leave'
 
     def fn(k1: int, a1: int, s1: int, k2: int, a2: int, s2: int):
-        assume(0 <= a1 < len(ACTIONS) and 0 <= s1 <= 2 and 0 <= k1 <= 40)
+        assume(0 <= a1 < len(ACTIONS) and 0 <= s1 <= 2 and 0 <= k1 <= 60)
         if two:
-            assume(0 <= a2 < len(ACTIONS) and 0 <= s2 <= 2 and k1 < k2 <= 40)
+            assume(0 <= a2 < len(ACTIONS) and 0 <= s2 <= 2 and k1 < k2 <= 60)
         else:
             assume(k2 == 0 and a2 == 0 and s2 == 0)
         act1, act2 = ACTIONS[pc.pin(a1, 0, len(ACTIONS) - 1)], ACTIONS[pc.pin(a2, 0, len(ACTIONS) - 1)]
@@ -105,53 +110,64 @@ def _mk_walk(key, wi, two):
             root = FST(src, 'exec')
             pc.reset_globals()
             n0 = len(list(ast.walk(root.a)))
-        sig = f'walk.{key}.{wkw}'
-        seen = set()
+            wroot = STARTS[start](root)
+        sig = f'walk.{key}.{wkw}' + ('' if start == 'root' else f'.from_{start}')
+        seen = set()       # ids of nodes yielded on entry (on leave for on='leave') and not since released by a send(True) re-walk
         keep = []          # keep every yielded object alive: otherwise a freed node's id() can be reused by a new node
         n = 0
-        entered = 0
-        inserted = 0
         expect_children_of = None
-        expect_skip = None
-        gen = root.walk(**wkw)
+        expect_again = []
+        gen = wroot.walk(**wkw)
         for item in gen:
             g, leaving = (item if both else (item, leave))
             n += 1
-            check(n <= 6 * (n0 + 8 * (1 + int(two))), 'walk.does_not_terminate', (key, wkw, act1, act2))
+            check(n <= 8 * (n0 + 8 * (1 + int(two))), 'walk.does_not_terminate', (key, wkw, act1, act2))
             check(g.a is not None and g.root is root, 'walk.yielded_dead_or_foreign_node', (key, wkw, act1, act2, n))
             with pc.untraced():
                 ga = g.a
                 check(any(m_ is ga for m_ in ast.walk(root.a)), 'walk.yielded_node_not_reachable_from_root', (key, wkw, act1, act2, type(ga).__name__))
-            if not leaving:
-                check(id(g) not in seen, 'walk.yielded_node_twice_on_entry', (key, wkw, act1, act2, type(g.a).__name__))
+            expect_again = [e for e in expect_again if e is not g]
+            if leaving == leave:          # the "first" kind of yield of this walk mode: entry, or leave for on='leave'
+                check(id(g) not in seen, 'walk.yielded_node_twice_on_leave' if leave else 'walk.yielded_node_twice_on_entry', (key, wkw, act1, act2, type(g.a).__name__, n))
                 seen.add(id(g))
                 keep.append(g)
-                if expect_children_of is not None and not leave:
-                    par, = expect_children_of
-                    # after replacing the current node (no send(False)) the walk continues INSIDE the replacement first
-                    if par.a is not None and list(par.walk(self_=False, **{k_: v_ for k_, v_ in wkw.items() if k_ in ('all',)})):
-                        anc = g
-                        inside = False
-                        while anc is not None:
-                            if anc is par:
-                                inside = True
-                            anc = anc.parent
-                        check(inside, 'walk.new_children_of_replacement_not_walked_next', (key, wkw, type(g.a).__name__))
-                    expect_children_of = None
-                entered += 1
-                this_k = entered - 1
-                for (kk, act, snd) in ((k1, act1, snd1),) + (((k2, act2, snd2),) if two else ()):
-                    if this_k == kk:
-                        res = _do(act, g)
-                        cover(res)
-                        if res == 'inserted_before':
-                            inserted += 1
-                        if snd == 1:
-                            gen.send(False)
-                        elif snd == 2 and not wkw.get('scope'):
-                            gen.send(True)
-                        if res == 'replaced_self' and snd != 1 and wkw.get('recurse', True) and not leave and g.a is not None:
+            if expect_children_of is not None:
+                par, = expect_children_of
+                # after replacing the current node (no send(False)) / after send(True) on leave the walk continues INSIDE that node first
+                if par.a is not None and list(par.walk(self_=False, **{k_: v_ for k_, v_ in wkw.items() if k_ in ('all',)})):
+                    anc = g
+                    inside = False
+                    while anc is not None:
+                        if anc is par:
+                            inside = True
+                        anc = anc.parent
+                    check(inside and (g is not par or both), 'walk.new_children_of_replacement_not_walked_next', (key, wkw, type(g.a).__name__, n))
+                expect_children_of = None
+            this_k = n - 1
+            for (kk, act, snd) in ((k1, act1, snd1),) + (((k2, act2, snd2),) if two else ()):
+                if this_k == kk:
+                    res = _do(act, g)
+                    cover(res + ('.leave' if leaving else '.enter'))
+                    if snd == 1:
+                        gen.send(False)
+                    elif snd == 2 and not wkw.get('scope'):
+                        gen.send(True)
+                    alive = g.a is not None and g.root is root
+                    if not leaving:
+                        if res == 'replaced_self' and snd != 1 and (wkw.get('recurse', True) or snd == 2) and alive:
                             expect_children_of = (g,)
+                    elif snd == 2 and not wkw.get('scope'):
+                        # documented: send(True) on leaving walks the node's children AGAIN, then yields the node again (for on='both' the
+                        # text can be read as "entered again" as well: both readings accepted)
+                        if alive:
+                            with pc.untraced():
+                                for d_ in ast.walk(g.a):
+                                    if getattr(d_, 'f', None) is not None:
+                                        seen.discard(id(d_.f))
+                            if res in ('replaced_self', 'n/a', 'refused', 'none'):
+                                expect_children_of = (g,)
+                                expect_again.append(g)
+        check(not [e for e in expect_again if e.a is not None and e.root is root], 'walk.node_not_yielded_again_after_send_true_on_leave', (key, wkw, act1, act2))
         # final tree: C01
         with pc.untraced():
             pc.o_parse(root, sig + '.final')
@@ -203,17 +219,22 @@ def p2_search_mutate(k: int, act: int):
 
 FNW = ['fst.fst_traverse.walk', 'fst.fst_core._unmake_fst_tree', 'fst.fst_core._set_ast', 'fst.fst_put_one._put_one', 'fst.fst_put_slice._put_slice']
 CELLS = []
+_QW = {('lists', 0), ('lists', 1), ('lists', 3), ('lists', 4), ('block', 0), ('block', 3), ('block', 4), ('mixed', 0), ('mixed', 6), ('nonefirst', 0), ('nonefirst', 2), ('boolops', 0), ('boolops', 3), ('comps', 6), ('comps', 0)}
 for _k in SRCS:
     for _wi, _w in enumerate(WALKS):
-        if _w.get('scope') and _k != 'mixed':
+        if _w.get('scope') and _k not in ('mixed', 'comps'):
             continue
         CELLS.append(Cell(f'P1.walk[{_k},{_w or "default"}]', _mk_walk(_k, _wi, False), 'P', FNW,
-                          f'carrier {_k}; walk({_w}); ONE mutation event: yield ordinal k over 0..40, {len(ACTIONS)} actions, send in {{none, False, True}} (all symbolic)',
-                          tier='quick' if (_k in ('lists', 'block') and _wi in (0, 1, 3)) or (_k == 'mixed' and _wi in (0, 6)) or (_k == 'nonefirst' and _wi in (0, 2)) else 'thorough', budget=900, per_path=60,
+                          f'carrier {_k}; walk({_w}); ONE mutation event: yield ordinal k over 0..60 (entry AND leave yields), {len(ACTIONS)} actions, send in {{none, False, True}} (all symbolic)',
+                          tier='quick' if (_k, _wi) in _QW else 'thorough', budget=900, per_path=60,
                           out='cut during walk (documented unsupported); raw edits during walk (documented lossy); >= 3 events', reset=pc.reset_globals))
     for _wi in (0, 1):
         CELLS.append(Cell(f'P1.walk2[{_k},{WALKS[_wi] or "default"}]', _mk_walk(_k, _wi, True), 'P', FNW,
                           f'carrier {_k}; walk({WALKS[_wi]}); TWO mutation events at k1 < k2, each any of {len(ACTIONS)} actions and 3 send values (symbolic)',
                           tier='thorough', budget=3000, per_path=60, reset=pc.reset_globals))
+for _k, _st, _wi in (('lists', 'value0', 0), ('lists', 'value0', 4), ('lists', 'value0', 3), ('calls', 'value0', 4), ('comps', 'stmt0', 6), ('comps', 'stmt0', 0), ('mixed', 'stmt0', 3), ('boolops', 'value0', 4)):
+    CELLS.append(Cell(f'P1.walk[{_k},{WALKS[_wi] or "default"},from={_st}]', _mk_walk(_k, _wi, False, _st), 'P', FNW,
+                      f'carrier {_k}; walk({WALKS[_wi]}) started at a NON-root node ({_st}), so the walk root itself can be replaced / removed when yielded; one mutation event as above',
+                      tier='quick' if (_k, _wi) in (('lists', 4), ('comps', 6), ('lists', 0)) else 'thorough', budget=900, per_path=60, reset=pc.reset_globals))
 CELLS.append(Cell('P2.search_mutate', p2_search_mutate, 'P', FNW + ['fst.match.search'], 'search(MName(a)) with replace (containing a new match) / remove / remove parent at a symbolic match ordinal',
                   budget=600, per_path=60, reset=pc.reset_globals))
